@@ -1,5 +1,6 @@
 (* I/O helpers for the SatEnc oracle (C13, reused by C14): Coq nat <-> int, literal index 2*v+sign, canonical
    printing of a model state in exactly the format of harness/satenc_common.h. *)
+type ostring = string   (* OCaml's string: the extracted model re-defines `string` (Coq's, kept as a datatype) *)
 open Satenc_model
 
 let rec nat_of_int (n : int) : nat = if n <= 0 then O else S (nat_of_int (n - 1))
@@ -8,21 +9,23 @@ let int_of_nat (n : nat) : int = let rec go acc = function O -> acc | S m -> go 
 let lit_of_idx (x : int) : lit = { lvar = nat_of_int (x lsr 1); lsign = (x land 1 = 1) }
 let idx_of_lit (p : lit) : int = 2 * int_of_nat p.lvar + (if p.lsign then 1 else 0)
 
-let lit_string (p : lit) : string = (if p.lsign then "b" else "\xc2\xacb") ^ string_of_int (int_of_nat p.lvar)
+(* Coq strings (ExtrOcamlBasic only: string and ascii stay Coq datatypes) -> OCaml strings *)
+let char_of_ascii (a : ascii) : char =
+  match a with
+  | Ascii (b0, b1, b2, b3, b4, b5, b6, b7) ->
+    let bit b k = if b then 1 lsl k else 0 in
+    Char.chr (bit b0 0 + bit b1 1 + bit b2 2 + bit b3 3 + bit b4 4 + bit b5 5 + bit b6 6 + bit b7 7)
+let rec ocaml_string (s : Satenc_model.string) : ostring =
+  match s with
+  | EmptyString -> ""
+  | String (a, r) -> Stdlib.String.make 1 (char_of_ascii a) ^ ocaml_string r
 
-let key_string (k : key) : string =
-  let cat ls = String.concat "" (List.map lit_string ls) in
-  match k with
-  | KVar v -> "b" ^ string_of_int (int_of_nat v)
-  | KEq (a, b) -> "=" ^ lit_string a ^ lit_string b
-  | KConj l -> "&" ^ cat l
-  | KDisj l -> "|" ^ cat l
-  | KAmo l -> "amo" ^ cat l
-  | KExct l -> "^" ^ cat l
+(* the printed cache key: the EXTRACTED printer smt/SatKeys.v str_key (proved injective), compared with the C++ key strings *)
+let key_string (k : key) : ostring = ocaml_string (str_key k)
 
 let lbool_char = function LFalse -> '0' | LTrue -> '1' | LUndef -> '2'
 
-let state_string (s : state) : string =
+let state_string (s : state) : ostring =
   let n = int_of_nat s.nvars in
   let b = Buffer.create 256 in
   Buffer.add_string b ("n=" ^ string_of_int n ^ " root=");
@@ -31,11 +34,11 @@ let state_string (s : state) : string =
   let cs = List.map (fun c -> List.sort compare (List.map idx_of_lit c)) s.clauses in
   let cs = List.sort compare cs in
   Buffer.add_string b " cl=";
-  Buffer.add_string b (String.concat ";" (List.map (fun c -> String.concat "," (List.map string_of_int c)) cs));
+  Buffer.add_string b (Stdlib.String.concat ";" (List.map (fun c -> Stdlib.String.concat "," (List.map string_of_int c)) cs));
   (* std::unordered_map::emplace keeps the first binding of a key: so does `lookup` on the association list,
      whose head is the most recent binding -- but the model only ever binds a key after a failed lookup *)
   let ex = List.map (fun (k, c) -> key_string k ^ ":" ^ string_of_int (idx_of_lit c)) s.exprs in
   let ex = List.sort compare ex in
   Buffer.add_string b " ex=";
-  Buffer.add_string b (String.concat "," ex);
+  Buffer.add_string b (Stdlib.String.concat "," ex);
   Buffer.contents b
